@@ -22,14 +22,26 @@ structure JOp where
   spec : Nat
   rev : Nat
   p : Nat       -- squat: 0 = no previous, k+1 = spec.previous names the ObjectSet at index k
-  auto : Bool   -- `arch` step derived by the harness from what the preceding pass's archiveReconciler wrote
+  auto : Bool   -- `arch` / `del` step derived by the harness from what the preceding pass's archiveReconciler wrote
+  -- `od` step, derived by the harness: the pass's archiveReconciler (environment here, property C08) failed
+  -- after its own garbage collection; the pass ended with that error before the status update
+  afail : Option Bool
   deriving FromJson
 
+/-- `lim` / the `k` of a `limit` operation encode spec.revisionHistoryLimit: 0 (or absent) = field not set
+(the archiver's default of 10 applies), n+1 = limit n. -/
 structure Scn where
   fl : String
   init : Nat
+  lim : Option Nat
   ops : List JOp
   deriving FromJson
+
+def decLimit (n : Nat) : Option Nat := if n = 0 then none else some (n - 1)
+
+def limitStr : Option Nat → String
+  | none => "nil"
+  | some n => toString n
 
 def maxVariant : Nat := 6
 def maxCC : Nat := 12
@@ -45,19 +57,25 @@ def toFault : String → Fault
 def toView : String → View
   | "list" => .hideList | "both" => .hideBoth | _ => .fresh
 
+/-- os/arch/del index: absolute (creation order) below 100, `100 + j` = the j-th newest ObjectSet. -/
+def relIdx (s : State) (i : Nat) : Option Nat :=
+  if i < 100 then some i
+  else if i - 100 < s.sets.length then some (s.sets.length - 1 - (i - 100)) else none
+
 /-- `none` = the harness ignores the operation (out of range), `some op` otherwise. -/
 def toOp (s : State) (j : JOp) : Option Op :=
   match j.op with
   | "edit" => if j.k ≤ maxVariant then some (.edit j.k) else none
   | "pause" => some (.pause j.b)
-  | "od" => some (.od (toFault j.fault) (toView j.hide) j.sfail)
-  | "os" => some (.os j.i)
-  | "arch" => some (.arch j.i)
-  | "del" => some (.del j.i)
+  | "od" => some (.od (toFault j.fault) (toView j.hide) (j.sfail || j.afail.getD false))
+  | "os" => (relIdx s j.i).map .os
+  | "arch" => (relIdx s j.i).map .arch
+  | "del" => (relIdx s j.i).map .del
   | "squat" =>
     let prev := if j.p = 0 then [] else match s.sets[j.p - 1]? with | some o => [o.name] | none => []
     if j.spec ≤ maxVariant ∧ s.cc + j.d ≤ maxCC then some (.squat j.d j.owned j.arch j.spec j.rev prev) else none
   | "restart" => some .restart
+  | "limit" => some (.limit (decLimit j.k))
   | _ => none
 
 def idStr (n : Nat) : String := s!"{n / 100}.{n % 100}"
@@ -95,7 +113,7 @@ def model (sc : Scn) : String := Id.run do
       let (s', rq, r) := exec cfg s op
       s := s'
       reqs := rq
-      res := r
+      res := if j.op == "od" && j.afail.getD false && r == "e:inj" && rq.isEmpty then "e:arch" else r
     outs := outs.push s!"{res} C[{",".intercalate (reqs.map reqStr)}] {stateStr s}"
   return ";".intercalate outs.toList
 
@@ -169,14 +187,21 @@ def monitor (sc : Scn) (out : String) : String := Id.run do
   let mut paused := false
   let mut pre : Before := { cc := 0, sets := [] }
   let mut epochCreates := 0
+  let mut limit := decLimit (sc.lim.getD 0)   -- only reported in the verdict: the property does not depend on it
   let mut i := 0
   let mut ops := sc.ops
+  -- the verdict names the FIRST step and clause that fail; clauses of other kinds that fail on later
+  -- steps of the same trace (consequences, e.g. a wrong previous list followed by a repeated
+  -- revision number) are appended as `also <kind> step=<n>`
+  let mut first : Option String := none
+  let mut kinds : List String := []
+  let done := fun (first : Option String) (dflt : String) => match first with | some f => f | none => dflt
   for st in steps do
-    if st == "CC-LIMIT" then return "ok"
+    if st == "CC-LIMIT" then return done first "ok"
     let j ← match ops with
-      | [] => return s!"bad step-count impl has more steps than the scenario ({steps.length})"
+      | [] => return done first s!"bad step-count impl has more steps than the scenario ({steps.length})"
       | j :: rest => do ops := rest; pure j
-    let some post := parseStep st | return s!"bad unparsable step={i} {st.take 120}"
+    let some post := parseStep st | return done first s!"bad unparsable step={i} {st.take 120}"
     -- the operation as the harness applies it (identical on both sides; environment ops only)
     let ms : State := { template := tmpl, paused := paused, cc := pre.cc, th := none, sets := pre.sets,
                         next := 0, unseen := [], created := 0, hi := 0, log := [] }
@@ -184,17 +209,27 @@ def monitor (sc : Scn) (out : String) : String := Id.run do
     let chg := match op with | some (.edit k) => k != tmpl | _ => false
     if chg then epochCreates := 0
     match stepOK { template := tmpl, paused := paused, epochCreates := epochCreates } pre op post with
-    | some why => return s!"bad {why} step={i} op={j.op} template={tmpl} cc-before={pre.cc} observed: {st}"
+    | some why =>
+      let nm := (mems pre.sets).length
+      match first with
+      | none =>
+        first := some s!"bad {why} step={i} op={j.op} template={tmpl} cc-before={pre.cc} revisionHistoryLimit={limitStr limit} existing-objectsets={nm} observed: {st}"
+        kinds := [why]
+      | some f =>
+        if !kinds.contains why then
+          first := some (f ++ s!" | also {why} step={i} op={j.op}")
+          kinds := why :: kinds
     | none => pure ()
     epochCreates := epochCreates + (post.reqs.filter (fun r => r.outcome == .ok || r.outcome == .lost)).length
     match op with
     | some (.edit k) => tmpl := k
     | some (.pause b) => paused := b
+    | some (.limit l) => limit := l
     | _ => pure ()
     pre := { cc := post.cc, sets := post.sets }
     i := i + 1
-  if !ops.isEmpty then return s!"bad step-count impl={steps.length} scn={sc.ops.length}"
-  return "ok"
+  if !ops.isEmpty then return done first s!"bad step-count impl={steps.length} scn={sc.ops.length}"
+  return done first "ok"
 
 end Pko.Drv.C07
 
